@@ -6,6 +6,8 @@ R12.2  closure: relative imports of runtime files target other runtime files or 
 R12.3  verbatim copy: in CoreEmitter.emit the value written is the unmodified `f.read()` result
 R12.6  the post-processor never receives the runtime copies (file lists are filtered against RUNTIME_FILES, both sides resolved)
 R12.7  RenderContext never "completes" a module path of the core package (root or sub-module) into the client package       [= R1.11]
+R12.8  the post-processor's tools are given files, never directories (a directory would take the runtime copies with it)          [= R10.7]
+R12.9  the non-force comparison covers every generated file, the runtime copies included                                          [= R9.4]
 R12.4  import registrations (add_import & co.): module argument never names the generator or a foreign package
 R12.5  import statements embedded in templates obey the same allow-list
 """
@@ -430,6 +432,14 @@ def run(repo: Repo, rep: Report, tier: str) -> None:
     from rules.c01 import rule_completion_spares_core
 
     rule_completion_spares_core(repo, rep, "R12.7")
+    # R12.8: the in-place rewriting tools never get a directory (a directory target reformats the runtime copies below it)     [= R10.7]
+    from rules.c10 import rule_postprocess_targets_are_files
+
+    rule_postprocess_targets_are_files(repo, rep, "R12.8")
+    # R12.9: a non-force run that succeeds has compared the runtime copies too (no generated file is left out of the comparison)  [= R9.4]
+    from rules.c09 import rule_show_diffs_compares_all
+
+    rule_show_diffs_compares_all(repo, rep, "R12.9")
 
 
 def _inside_stmt(node: ast.AST, anc: ast.AST) -> bool:
@@ -617,3 +627,50 @@ def rule_postprocess_skips_runtime_copies(repo: Repo, rep, rule: str = "R12.6") 
             rep.violation(rule, sub, f"{gen.fq}|postprocess-rewrites-runtime-copies",
                           "the formatters (ruff format / isort / unused-import fixes, run in place) receive the runtime modules CoreEmitter copied verbatim: "
                           "with the target project's defaults they are re-wrapped, so the core package no longer holds the shipped runtime byte for byte", gen.loc(c))
+
+
+# ------------------------------------------------------------------------------------------------ imports executed at import time (C01/R1.18)
+def _import_time(node: ast.AST) -> bool:
+    """Is the statement executed when the module is imported?  (not inside a function / lambda, not under `if TYPE_CHECKING`, not optional)"""
+    p = parent(node)
+    while p is not None:
+        if isinstance(p, (ast.FunctionDef, ast.AsyncFunctionDef, ast.Lambda)):
+            return False
+        if isinstance(p, ast.If) and "TYPE_CHECKING" in norm(p.test) and not isinstance(p.test, ast.UnaryOp):
+            return False
+        p = parent(p)
+    return not _in_optional_import_guard(node)
+
+
+def rule_import_time_imports(repo: Repo, rep, rule: str) -> None:
+    """A shipped runtime module that imports, at import time, anything but the standard library, httpx, cattrs or a sibling cannot be
+    imported in an interpreter that has only the documented runtime dependencies."""
+    n = 0
+    for modname, filename, dst, line in runtime_files(repo):
+        dn = f"{modname}.{filename[:-3]}"
+        if dn not in repo.modules:
+            continue
+        mod = repo.modules[dn]
+        bad = []
+        for st in ast.walk(mod.tree):
+            if isinstance(st, ast.Import):
+                targets = [a.name for a in st.names]
+            elif isinstance(st, ast.ImportFrom):
+                targets = [("." * st.level) + (st.module or "")]
+            else:
+                continue
+            if not _import_time(st):
+                continue
+            for t in targets:
+                n += 1
+                ok, why = classify_module(t)
+                if not ok:
+                    bad.append((st, t, why))
+        for st, t, why in bad:
+            rep.violation(rule, f"{mod.relpath} `{norm(st)[:70]}`", f"{mod.name}|import-time|{t}",
+                          f"executed when the copied module is imported: {why} - the emitted core (and every module importing it) raises ModuleNotFoundError "
+                          "where only httpx and cattrs are installed", f"{mod.relpath}:{st.lineno}")
+        if not bad:
+            rep.ok(rule, f"{mod.relpath} import-time imports", "stdlib / httpx / cattrs / relative only", f"{mod.relpath}:1")
+    rep.count(f"{rule}:import_time_imports", n)
+    rep.require(n >= 20, f"{rule}: only {n} import-time imports found in the runtime payload (floor 20)")
